@@ -83,7 +83,12 @@ static bool chainOk(const Trust &t) {
     bool a = t.anchors == 0 || t.anchors == 2, b = t.anchors == 1 || t.anchors == 2;
     switch (t.signer) { case 0: case 4: return a; case 1: return a && t.interInBag; case 2: return b; default: return false; }
 }
-static Bytes signFor(const Trust &t, const Bytes &data) { TestPki &pki = TestPki::get(); std::vector<X509 *> bag; if (t.signer == 1 && t.interInBag) bag.push_back(pki.interA.cert); Bytes s = pki.signDetached(signerOf(t.signer), data, bag); registerOpaque(s); return s; }
+// In a share of the files another publisher's certificate (a decoy: signer 2's for signers 0 / 3 / 4, signer 0's for signer 2) precedes the real signer's in the PKCS#7 certificate set
+// (derived from the trust parameters, no additional draw). Anchors and constraints apply to the certificate that signed, wherever it sits in the set.
+static bool decoyFirst(const Trust &t) { return t.signer != 1 && (t.anchors + t.where + (int)t.cons.size()) % 3 == 0; }
+static Bytes signFor(const Trust &t, const Bytes &data) { TestPki &pki = TestPki::get(); std::vector<X509 *> bag; if (t.signer == 1 && t.interInBag) bag.push_back(pki.interA.cert); Bytes s;
+    if (decoyFirst(t)) { std::vector<X509 *> before; before.push_back(t.signer == 2 ? pki.s[0].cert : pki.s[2].cert); s = pki.signDetachedSignerLast(signerOf(t.signer), data, before); } else s = pki.signDetached(signerOf(t.signer), data, bag);
+    registerOpaque(s); return s; }
 static std::string trustStr(const Trust &t) {
     static const char *an[] = {"A", "B", "A+B", "none"}, *wh[] = {"context", "file", "nowhere", "file-over-context"}; std::string s = "signer=s" + num(t.signer) + (t.signer == 1 ? (t.interInBag ? "(+intermediate)" : "(no intermediate)") : "") + " anchors=" + an[t.anchors] + " constraints@" + wh[t.where] + "=[";
     for (auto &c : t.cons) s += c.oid + ":" + c.how + " "; s += "]"; if (t.where == 3) { s += " ctx=["; for (auto &c : t.ctxCons) s += c.oid + ":" + c.how + " "; s += "]"; }
@@ -126,7 +131,7 @@ static void modeStructure(Dec &d, Case &c) {
     bool sep = d.pick(3) == 0; Ctx parseCtx; std::vector<KSI_CertConstraint> pstore; std::vector<Constraint> pcons;
     if (sep) { bool allMatch = !t.cons.empty(); for (auto &k : t.cons) if (!k.matches) allMatch = false; Constraint k; k.oid = kOidEmail; k.val = allMatch ? "nobody@elsewhere.test" : attrOf(t.signer, kOidEmail); k.matches = !allMatch; k.how = "parse-context"; pcons.push_back(k);
         static const int opposite[] = {1, 0, 3, 2}; configure(parseCtx, opposite[t.anchors], &pcons, pstore); }
-    Ctx ctx; Observed ob = observe(file, t, ctx, nullptr, sep ? (KSI_CTX *)parseCtx : nullptr); if (sep) c.cls("verified-under-another-context");
+    Ctx ctx; Observed ob = observe(file, t, ctx, nullptr, sep ? (KSI_CTX *)parseCtx : nullptr); if (sep) c.cls("verified-under-another-context"); if (hasSig && decoyFirst(t)) c.cls("pkcs7:another-certificate-ahead-of-the-signer");
     // every structure / trust case is followed at once by a leak check (the PKCS#7 element of these files is the untampered output of the test PKI, so the crypto library's own
     // error paths for malformed signatures are not involved): whatever parsing and verification allocated - object identifiers looked up by name included - must have been released
     // (a lost block stays lost: once a leak has been reported in this process the check is switched off, so that the case in which it first appeared is the one that is kept)
